@@ -9,15 +9,20 @@
    rArrayOption use rParamFCb / rOptionCb on the addressed element):
    r is the callback's result on stored value [old] and incoming value [v].
    Its side conditions are the property's quantifier: char-backed kinds
-   -128..127, floats without NaN. *)
+   -128..127 (for rArrayI, whose local is a char whatever the element type,
+   also the stored value: C14_arrayI_wide_element_refuted), floats without NaN. *)
 From Coq Require Import List ZArith.
 From RtoscV Require Import Ports.SugarModel Ports.SugarProofs Ports.SugarRegress Ports.SugarReplay.
 Import ListNotations.
 Local Open Scope Z_scope.
 
 (* the value stored afterwards is the incoming value clamped to the declared
-   minimum and maximum (absent bound = no restriction; no order between the
-   bounds is needed for the equation) *)
+   minimum and maximum (absent bound = no restriction).  No order between the
+   bounds is assumed: [clampK] applies the lower bound first, then the upper
+   (min(max(v,lo),hi)), so for an inverted range (min > max) every value is
+   stored as max - the correspondence run generates inverted ranges too and its
+   oracle demands exactly this; "inside the range" (C14_in_range) needs
+   [bounds_ordered]. *)
 Theorem C14_clamp : forall e loc old key mka mkb v r,
   numeric_set e loc old key mka mkb v r ->
   exists o, r = Some (clampK key (p_min e) (p_max e) v, o).
@@ -158,6 +163,48 @@ Theorem C14_array_nonvacuous :
   rArrayICb env_ex [47] (array_address env_ex [0; 3] []) [1; 2; 3; 4] [Ai 50] =
     Some ([1; 2; 3; 9], [Reply (mk undo_path [As [47]; Ai 4; Ai 9]); Bcast (mk [47] [Ai 9])]).
 Proof. exact array_address_nonvacuous. Qed.
+
+Theorem C14_string_trunc_nonvacuous :
+  1 <= 5 /\ Z.of_nat (length [65; 0; 77; 0; 0]) = 5 /\ nul_free [97; 98; 99; 100; 101; 102] /\
+  rStringCb 5 env_ex [47] [65; 0; 77; 0; 0] [As [97; 98; 99; 100; 101; 102]] =
+    Some ([97; 98; 99; 100; 0], [Bcast (mk [47] [As [97; 98; 99; 100]])]).
+Proof. exact string_trunc_nonvacuous. Qed.
+
+Theorem C14_option_symbol_nonvacuous :
+  symbol_index (p_map env_ex) [114] = Some 0 /\
+  rOptionCb env_ex [47] 2 [ASy [114]] =
+    Some (0, [Reply (mk undo_path [As [47]; Ai 2; Ai 0]); Bcast (mk [47] [Ai 0])]).
+Proof. exact option_symbol_nonvacuous. Qed.
+
+Theorem C14_member_toggle_nonvacuous :
+  p_hash env_arr = true /\ digits_ok [1] /\ starts_nondigit [] /\
+  nth_error [7; 0; 8; 1] (Z.to_nat (2 * digits_val [1] + 1)) = Some 1 /\ arg_T AFalse = Some 0 /\
+  rArrayTCbMember env_arr [47; 110; 49] (array_address env_arr [1] []) [7; 0; 8; 1] [AFalse] =
+    Some ([7; 0; 8; 0], [Bcast (mk [47; 110; 49] [AFalse])]).
+Proof. exact member_toggle_nonvacuous. Qed.
+
+(* a float kind: port -1.5 .. 2.5 holding 0.5; set 100.0, query, set -7.125 *)
+Theorem C14_history_in_range_nonvacuous :
+  numeric_kind KF /\ env_ok env_flt KF /\
+  bounds_ordered (kind_key KF) (p_min env_flt) (p_max env_flt) /\ map_in_range env_flt /\
+  Forall (fun o => conforming env_flt KF (op_args o)) hist_flt /\ stored_ok env_flt KF [1056964608] /\
+  exists outs, run KF env_flt hist_flt [1056964608] = Some ([3217031168], outs) /\
+    undo_pairs outs = [(1056964608, 1075838976); (1075838976, 3217031168)].
+Proof. exact history_in_range_nonvacuous. Qed.
+
+(* the side condition "stored value inside the char range" of rArrayI cannot be
+   dropped (CURRENT code, int-element array holding 261): the query replies 261,
+   a set of 5 stores 5 without an undo event, a set of 7 reports 5 as the
+   previous value.  Replayed on the real code (harness kind AIW); finding class
+   arrayI-wide-element. *)
+Theorem C14_arrayI_wide_element_refuted :
+  let e := {| p_name := [119]; p_hash := true; p_min := None; p_max := None; p_map := [] |} in
+  ~ char_range 261 /\ char_range 5 /\ char_range 7 /\
+  rArrayICb_elem e [47; 119; 48] 261 [] = Some (261, [Reply (mk [47; 119; 48] [Ai 261])]) /\
+  rArrayICb_elem e [47; 119; 48] 261 [Ai 5] = Some (5, [Bcast (mk [47; 119; 48] [Ai 5])]) /\
+  rArrayICb_elem e [47; 119; 48] 261 [Ai 7] =
+    Some (7, [Reply (mk undo_path [As [47; 119; 48]; Ai 5; Ai 7]); Bcast (mk [47; 119; 48] [Ai 7])]).
+Proof. exact arrayI_wide_element. Qed.
 
 (* the code before the two fix: commits did not have the property (witnesses
    replayed on the unfixed code, corpus/C14/defects.txt) *)
